@@ -632,6 +632,32 @@ def rule_g(ctx: Context, R: Reporter):
                             msg=f"{m.short}: key `assignments` receives {why} next to `u = {unparse(a_u.value)[:30]}`: unless it is predict() of exactly those rows, label i does not "
                                 f"belong to particle i (e.g. labels of the distinct resampled particles in sorted order against rows in draw order)", key=f"labels-of-stored-rows:{m.short}")
     R.floor("C14.g", "state writes storing rows together with labels", n, 1)
+    # must-write: the step that labels the active set does so on *every* path of its run method: the training
+    # step before it may have refitted the clusterer (labels permuted, fewer or more modes), so labels left over
+    # from the previous iteration do not refer to the modes the kernel is about to receive
+    n_lab = 0
+    for (sc, attr) in users:
+        for m in sc.methods.values():
+            ws = [a for a in ctx.state.in_func(m, include_nested=False) if a.mode == "write" and a.key == "assignments"]
+            if not ws:
+                continue
+            fl = flow_of(m.node)
+            cfg = fl.cfg
+            wn = [fl.node_containing(a.call) for a in ws]
+            wn = [x.id for x in wn if x is not None]
+            n_lab += 1
+            skip = cfg.reaches(cfg.entry.id, cfg.exit.id, blocked=wn)
+            p = cfg.find_path(cfg.entry.id, cfg.exit.id, blocked=wn) if skip else None
+            last = None
+            if p:
+                for i_ in p:
+                    nd_ = cfg.nodes[i_]
+                    if getattr(nd_, "stmt", None) is not None:
+                        last = nd_.stmt
+            R.check("C14.g", f"{m.short} relabels the active particles on every path", not skip, m, last if last is not None else m.node,
+                    msg=f"{m.short}: a path through the step (ending at `{unparse(last)[:40] if last is not None else '?'}`) leaves the key `assignments` untouched: the labels kept from the "
+                        f"previous iteration meet modes fitted in this one (permuted / fewer clusters after a refit)", key=f"labels-must-write:{m.short}")
+    R.floor("C14.g", "labelling steps", n_lab, 1)
 
 
 # ------------------------------------------------------------------ C14.e
@@ -840,6 +866,7 @@ def variants():
         Variant("e-cap-off-by-one", "bad", replace_expr(core, "SamplerCore.__init__", "config.n_max_clusters - 1", "config.n_max_clusters"), ["C14.e"], quick=True),
         Variant("h-adapt-by-rank", "bad", edit("tempest/mcmc.py", "BaseMCMCRunner.run", _adapt_by_rank), ["C14.h"], quick=True),
         Variant("h-benign-enumerate-modes", "benign", edit("tempest/mcmc.py", "BaseMCMCRunner.run", _adapt_enum_modes)),
+        Variant("g-carry-over-skips-labels", "bad", insert_before("tempest/steps/resample.py", "Resampler.run", "u = self.state.get_history('u', flat=True)", "if self.state.get_current('u') is not None and beta == self.state.get_last_history('beta'):\n    return"), ["C14.g"], quick=True),
         Variant("c-clip-means-after-fit", "bad", insert_before(tr, "Trainer.run", "return mode_stats", "mode_stats.means = np.clip(mode_stats.means, 1e-4, 1 - 1e-4)"), ["C14.c"], quick=True),
         Variant("benign-rename-refit", "benign", alpha_rename(tr, "Trainer.run", "refit", "do_fit"), quick=True),
         Variant("benign-rename-labels", "benign", alpha_rename(tr, "Trainer.run", "labels", "lab")),
